@@ -371,7 +371,7 @@ def run(chk, args):
     groups, per_group = (8, 250) if thorough else (6, 25)
     # per group, on two more database instances: rounds of conflicting conditional writes started together on a synced store with
     # a long sync period; windows of GetAll / Scan against tight-loop multi-key writers
-    race_rounds, snap_windows = (120, 40) if thorough else (30, 6)
+    race_rounds, snap_windows = (120, 40) if thorough else (28, 5)
     mc = {}
     mct = threading.Thread(target=run_mc, args=(chk, wd, mc))
     mct.start()
